@@ -623,6 +623,10 @@ func (e *Engine) checkC04(ops []*opRec) {
 				continue
 			}
 			e.violate("C04", "not-released-by-clear", fmt.Sprintf("value %d (key %d) was accepted at #%d but not passed to OnExit by the return (#%d) of the %s invoked at #%d", v.ID, v.Key, v.RetSeq, c.RetSeq, OpNames[c.K], c.InvSeq), c.RetSeq)
+			if c.K == OpClose {
+				// C15: after Close returns every value still held or buffered has been released
+				e.violate("C15", "not-released-by-close", fmt.Sprintf("value %d (key %d, accepted at #%d) was still held when Close [#%d,#%d] returned and was never passed to the callbacks", v.ID, v.Key, v.RetSeq, c.InvSeq, c.RetSeq), c.RetSeq)
+			}
 		}
 	}
 	// retrievable after exit (same rule as C02, part of C04's statement)
